@@ -4,7 +4,7 @@
    MC_Overlay_thorough.cfg  1 lower, sequences of 2 operations, full type universe      (<= 10 min)
    MC_Overlay_2l.cfg        2 lowers, reduced universe (simulation / scenario export)
    MC_Overlay_noupper.cfg   no upper layer: every operation must fail
-   checks/ovl.py rewrites the Known constant (enabled known-finding predicates) per run. *)
+   checks/ovl.py rewrites the Known constant (enabled known-finding predicates) and AsFound per run. *)
 EXTENDS OverlayImpl
 \* two top-level names, children only under "a" (the prototype universe of DESIGN A.2)
 MCPaths == {<<"a">>, <<"b">>, <<"a", "a">>, <<"a", "b">>}
